@@ -60,7 +60,8 @@ type Node struct {
 
 // Value is one entry of the value pool; its meaning depends on the family:
 //
-//	att:    A = source epoch is duty epoch - A;  B = distance of the head slot behind the duty slot (-1: unknown to the cache)
+//	att:    A = source epoch is duty epoch - A;  B = distance of the head slot behind the duty slot (-1: unknown to the cache);
+//	        D = 1 + index of an earlier pool value whose head root this value shares (0: a head of its own; B and Miss are then those of that value)
 //	agg:    A = length of the aggregation bits;  B = bits set
 //	prop:   A = version (1 altair .. 4 deneb);   CV/EV (or B/C) = consensus / execution value in wei;  D = 1: blinded
 //	sync:   A = bits set (of 128)
@@ -153,13 +154,24 @@ func (c *Case) view(k int) *Case {
 	return &v
 }
 
+// headOf: the pool value whose head root attestation-data value i votes for
+// (its own, unless D names an earlier value with a head of its own).
+func headOf(c *Case, i int) int {
+	if strategies[c.Strategy].Family == "att" {
+		if h := int(c.Pool[i].D) - 1; h >= 0 && h < i && c.Pool[h].D == 0 {
+			return h
+		}
+	}
+	return i
+}
+
 // headDist: how many slots the head / root of pool value i lies behind the
 // slot of the first call (-1: unknown to the cache); never before slot 0.
 func headDist(c *Case, i int) int64 {
 	d := int64(-1)
 	switch strategies[c.Strategy].Family {
 	case "att":
-		d = c.Pool[i].B
+		d = c.Pool[headOf(c, i)].B
 	case "root":
 		d = c.Pool[i].A
 	}
@@ -185,6 +197,12 @@ var weightedNames = func() []string {
 // genNodes draws the scripts of the n nodes for one call.
 func genNodes(t *rapid.T, info stratInfo, n, poolN, soft, hard int) []Node {
 	var nodes []Node
+	// one call in six has no early node at all: everything is decided after
+	// the soft timeout
+	classes := []string{"early", "early", "early", "early", "early", "mid", "mid", "late", "same", "same"}
+	if between(t, "allSlow", 0, 5) == 0 {
+		classes = []string{"mid", "mid", "mid", "mid", "late", "same"}
+	}
 	kinds := []string{"value", "value", "value", "value", "value", "value", "error", "error", "hang"}
 	if len(info.Invalid) > 0 {
 		kinds = append(kinds, "invalid", "invalid")
@@ -201,7 +219,7 @@ func genNodes(t *rapid.T, info stratInfo, n, poolN, soft, hard int) []Node {
 			nd.Err = choose(t, "err", []string{"plain", "plain", "api404", "api503", "api500"})
 		}
 		if nd.Kind != "hang" {
-			class := choose(t, "class", []string{"early", "early", "early", "early", "early", "mid", "mid", "late", "same", "same"})
+			class := choose(t, "class", classes)
 			if class == "same" {
 				var prev []int
 				for j := 0; j < i; j++ {
@@ -210,7 +228,7 @@ func genNodes(t *rapid.T, info stratInfo, n, poolN, soft, hard int) []Node {
 					}
 				}
 				if len(prev) == 0 {
-					class = "early"
+					class = classes[0]
 				} else {
 					j := choose(t, "sameAs", prev)
 					nd.Class, nd.LatMs = nodes[j].Class, nodes[j].LatMs
@@ -259,7 +277,7 @@ func between(t *rapid.T, label string, lo, hi int) int { return lo + uni(t, labe
 func genCase(t *rapid.T) Case {
 	name := choose(t, "strategy", weightedNames)
 	info := strategies[name]
-	c := Case{Strategy: name, TimeoutMs: choose(t, "timeout", []int{1000, 1400})}
+	c := Case{Strategy: name, TimeoutMs: choose(t, "timeout", []int{1200, 1400})}
 	hard := c.TimeoutMs
 	soft := hard / 2
 	n := choose(t, "n", []int{1, 2, 2, 3, 3, 3, 4, 4, 5, 5})
@@ -271,8 +289,27 @@ func genCase(t *rapid.T) Case {
 			v.A = choose(t, "sourceBack", []int64{1, 1, 2, 3})
 			v.B = choose(t, "headDist", []int64{-1, 0, 0, 1, 2, 5, 31})
 			v.Miss = v.B >= 0 && between(t, "cacheMiss", 0, 1) == 1
+			// nodes that agree on the head but not on the source / target checkpoint
+			if i > 0 && between(t, "sharesHead", 0, 1) == 1 {
+				if h := between(t, "headOf", 0, i-1); c.Pool[h].D == 0 {
+					v.D = int64(h + 1)
+				}
+			}
 		case "agg":
-			v.A = choose(t, "bits", []int64{1, 8, 64, 128, 128, 2048})
+			v.A = choose(t, "bits", []int64{1, 8, 64, 128, 128, 400, 512, 2048})
+			if i > 0 && between(t, "nearPrevious", 0, 1) == 1 {
+				// as complete as another aggregate but for one or two attesters
+				prev := c.Pool[between(t, "nearTo", 0, i-1)]
+				v.A = prev.A
+				v.B = prev.B + choose(t, "delta", []int64{-2, -1, 1, 2})
+				if v.B < 0 {
+					v.B = 0
+				}
+				if v.B > v.A {
+					v.B = v.A
+				}
+				break
+			}
 			switch between(t, "fill", 0, 3) {
 			case 0:
 				v.B = 0
@@ -1212,6 +1249,12 @@ func labelsOf(c *Case, h *history, v *verdict) []string {
 	}
 	if strings.Contains(c.Graffiti, "{{CLIENT}}") {
 		l = append(l, "graffiti-with-client-template")
+	}
+	for i := range c.Pool {
+		if headOf(c, i) != i {
+			l = append(l, "values-sharing-a-head-root")
+			break
+		}
 	}
 	for _, p := range c.Pool {
 		if p.Miss {
